@@ -201,7 +201,7 @@ def run(ctx):
     # vacuity guards: each re-introduced defect must violate the named invariant
     for cfg, inv in (("MC_IStream_colbug.cfg", "SavedExact"), ("MC_IStream_colbug_future.cfg", "FutureRefines"),
                      ("MC_IStream_setposbug.cfg", "Refines"), ("MC_IStream_eofbug.cfg", "ReturnsAgree")):
-        r = vlib.tlc("IStream", cfg, workers=2)
+        r = vlib.tlc("IStream", cfg, workers=2, expect=inv)
         if inv not in r.invariant_violated:
             raise vlib.Infra("vacuity guard: %s did not violate %s" % (cfg, inv))
         ctx.extra.setdefault("vacuity_guards", []).append({"cfg": cfg, "violates": inv, "states": r.distinct})
